@@ -114,7 +114,106 @@ example : Parse.parseNfa "states p q\nepsilon e\ninput_symbols a b\ninitial p\nf
     .ok { Q := ["p", "q"], Sigma := ["a", "b"], q0 := "p", F := ["q"], eps := "e",
           delta := [(("p", "a"), ["q", "p"]), (("p", "e"), ["q"])] } := by rfl
 
+/-! ### C16 — the NFA round trip -/
+
+/-- `parse_nfa (print_nfa N)` succeeds and gives `N` back — same states, alphabet, initial and final states (as sets),
+    the same ε and the same successor sets (a `δ` entry with an empty target set prints no line and comes back as a
+    missing entry, which `succ` reads as ∅) — for every valid NFA whose `δ` has no repeated key, whose state names are
+    words other than the five keywords of the format, and whose symbols and ε are words.
+    (`Parse.NfaNameOk` is defined in Proofs/C16b.lean.) -/
+theorem parse_print_nfa (N : NFA String String) (hv : N.valid = true) (hk : (N.delta.map (·.1)).Nodup)
+    (hQ : ∀ q, q ∈ N.Q → Parse.NfaNameOk q) (hS : ∀ a, a ∈ N.Sigma → Parse.isWord a.toList = true)
+    (he : Parse.isWord N.eps.toList = true) :
+    ∃ N', Parse.parseNfa (Parse.printNfa N).toList = .ok N' ∧
+      (∀ q, q ∈ N'.Q ↔ q ∈ N.Q) ∧ (∀ a, a ∈ N'.Sigma ↔ a ∈ N.Sigma) ∧ N'.q0 = N.q0 ∧ (∀ q, q ∈ N'.F ↔ q ∈ N.F) ∧
+      N'.eps = N.eps ∧ ∀ q a x, x ∈ N'.succ q a ↔ x ∈ N.succ q a := by
+  obtain ⟨N', hp, _, hQ', hS', hq', hF', he', hd'⟩ := Parse.parse_print_nfa_explicit N hv hQ hS he
+  refine ⟨N', hp, ?_, ?_, hq', ?_, he', ?_⟩
+  · intro q; rw [hQ']; exact mem_sortStrings_dedup
+  · intro a; rw [hS', mem_dedup]; exact mem_sortStrings_dedup
+  · intro q; rw [hF']; exact mem_sortStrings_dedup
+  · intro q a x
+    have := Parse.nfaRaw_succ N hk q a x
+    rw [← hd'] at this
+    exact this
+
+/-- step (1) alone: the line parser reads back exactly the declarations and the transition entries that were printed
+    (no hypothesis on repeated keys is needed here) -/
+theorem parse_print_nfa_raw (N : NFA String String) (hv : N.valid = true)
+    (hQ : ∀ q, q ∈ N.Q → Parse.NfaNameOk q) (hS : ∀ a, a ∈ N.Sigma → Parse.isWord a.toList = true)
+    (he : Parse.isWord N.eps.toList = true) :
+    ∃ A, Parse.parseRaw .nfa Parse.isWord (Parse.printNfa N).toList = .ok A ∧
+      A.states = sortStrings (dedup N.Q) ∧ A.final = sortStrings (dedup N.F) ∧ A.initial = [N.q0] ∧
+      A.items.lookup "input_symbols" = some (sortStrings (dedup N.Sigma)) ∧
+      A.items.lookup "epsilon" = some [N.eps] ∧
+      ∀ p a x, (p, a, x) ∈ A.transitions ↔
+        (∃ T, ((p, Text.str a), T) ∈ N.delta ∧ x ∈ T) ∧ a = (Text.str a).toList :=
+  ⟨_, Parse.parse_print_nfa_raw N hv hQ hS he, rfl, rfl, rfl, rfl, rfl, by
+    intro p a x
+    show (p, a, x) ∈ Parse.transOf (Parse.nfaTrans N) ↔ _
+    rw [Parse.mem_transOf]
+    constructor
+    · rintro ⟨t, ht, he⟩
+      obtain ⟨T, hm, hx⟩ := Parse.mem_nfaTrans.mp ht
+      simp only [Prod.mk.injEq] at he
+      obtain ⟨rfl, rfl, rfl⟩ := he
+      exact ⟨⟨T, by simpa using hm, hx⟩, by simp⟩
+    · rintro ⟨⟨T, hm, hx⟩, ha⟩
+      exact ⟨(p, x, Text.str a), Parse.mem_nfaTrans.mpr ⟨T, hm, hx⟩, by simp⟩⟩
+
+/-- a 3-state NFA with ε = "_", no accepting state, unsorted declarations, two labels (`b` and ε) on the edge
+    `p → q`, two targets for `(q, a)`, and an isolated state `r` whose only `δ` entry has an empty target set -/
+def C16.exN : NFA String String :=
+  { Q := ["q", "p", "r"], Sigma := ["b", "a"], q0 := "p", F := [], eps := "_",
+    delta := [(("p", "b"), ["q"]), (("p", "_"), ["q"]), (("q", "a"), ["q", "p"]), (("r", "a"), [])] }
+
+/-- the hypotheses of `parse_print_nfa` hold for it -/
+example : C16.exN.valid = true ∧ (C16.exN.delta.map (·.1)).Nodup ∧ (∀ q, q ∈ C16.exN.Q → Parse.NfaNameOk q) ∧
+    (∀ a, a ∈ C16.exN.Sigma → Parse.isWord a.toList = true) ∧ Parse.isWord C16.exN.eps.toList = true := by
+  refine ⟨by decide, by decide, ?_, by decide, by decide⟩
+  unfold Parse.NfaNameOk
+  decide
+
+theorem C16.exN_print :
+    Parse.printNfa C16.exN =
+      "states p q r\nfinal \ninitial p\ninput_symbols a b\nepsilon _\np q b _\nq p a\nq q a\n" := by
+  have s1 : sortStrings (dedup C16.exN.Q) = ["p", "q", "r"] := by
+    have : dedup C16.exN.Q = ["q", "p", "r"] := by rfl
+    rw [this]; simp [sortStrings, List.mergeSort, List.MergeSort.Internal.splitInTwo]
+  have s2 : sortStrings (dedup C16.exN.F) = [] := by
+    have : dedup C16.exN.F = [] := by rfl
+    rw [this]; simp [sortStrings]
+  have s3 : sortStrings (dedup C16.exN.Sigma) = ["a", "b"] := by
+    have : dedup C16.exN.Sigma = ["b", "a"] := by rfl
+    rw [this]; simp [sortStrings, List.mergeSort, List.MergeSort.Internal.splitInTwo]
+  have s4 : sortStrings (dedup ((C16.exN.delta.flatMap fun e => e.2.map fun q => (e.1.1, q, e.1.2)).map
+      fun t => t.1 ++ " " ++ t.2.1)) = ["p q", "q p", "q q"] := by
+    have : dedup ((C16.exN.delta.flatMap fun e => e.2.map fun q => (e.1.1, q, e.1.2)).map
+        fun t => t.1 ++ " " ++ t.2.1) = ["p q", "q q", "q p"] := by rfl
+    rw [this]; simp [sortStrings, List.mergeSort, List.MergeSort.Internal.splitInTwo]
+  unfold Parse.printNfa Parse.transLines
+  simp only [s1, s2, s3, s4]
+  rfl
+
+/-- … and the round trip evaluated: the sets come back sorted, the entry with the empty target set is gone, the
+    targets of `(q, a)` come back in printing order -/
+example : Parse.parseNfa (Parse.printNfa C16.exN).toList =
+    .ok { C16.exN with Q := ["p", "q", "r"], Sigma := ["a", "b"],
+                       delta := [(("p", "b"), ["q"]), (("p", "_"), ["q"]), (("q", "a"), ["p", "q"])] } := by
+  rw [C16.exN_print]; rfl
+
+/-- the name condition is needed: a state called `epsilon` prints its transitions as a second `epsilon` declaration -/
+example : Parse.parseNfa "states epsilon p\nfinal \ninitial p\ninput_symbols a\nepsilon _\nepsilon p a\np epsilon a\n".toList =
+    .error .runtimeError := rfl
+
+/-- the condition on repeated keys is needed: a `δ` listing the key `(p, a)` twice — `succ` only reads the first entry —
+    prints both targets, and both come back -/
+example : Parse.parseNfa "states p q\nfinal \ninitial p\ninput_symbols a\nepsilon _\np p a\np q a\n".toList =
+    .ok { Q := ["p", "q"], Sigma := ["a"], q0 := "p", F := [], eps := "_", delta := [(("p", "a"), ["p", "q"])] } := rfl
+
 #print axioms parseDfa_builds
 #print axioms parseNfa_builds
+#print axioms parse_print_nfa
+#print axioms parse_print_nfa_raw
 
 end Gamba
